@@ -1,12 +1,12 @@
 #!/bin/bash
 # Long background batch on a committed snapshot: (1) every seeded change against its checks,
-# (2) the mutant sensitivity protocol, (3) the thorough tier of every check. Results are printed
-# (SEEDRESULT / MUTANT / THOROUGH lines) and left in the snapshot's seeded/RESULTS.json and
+# (2) the thorough tier of every check, (3) the mutant sensitivity protocol. Results are printed
+# (SEEDRESULT / THOROUGH / MUTANT lines) and left in the snapshot's seeded/RESULTS.json and
 # sensitivity/results.json, from where they are copied back by hand.
 export PYTHONPATH=$PWD
 /venv/bin/python -m xsmverif.seeded_eval
 echo "=== SEEDED DONE"
-/venv/bin/python -m xsmverif.sensitivity
-echo "=== SENSITIVITY DONE"
 bash tools_thorough_all.sh 1
 echo "=== THOROUGH DONE"
+/venv/bin/python -m xsmverif.sensitivity
+echo "=== SENSITIVITY DONE"
